@@ -157,6 +157,77 @@ def directPlaceholder : List SynthEv → Bool
   | .placeholder :: _ => true
   | .nested _ :: rest => directPlaceholder rest
 
+/-! ## bounds of type parameters: the two validators
+A written generic type `C<t1..tn>` (annotation, explicit type arguments) is validated by
+`TypingContext::validate_type_instantiation_customized` (typing_context.rs:178-228); inferred type
+arguments by `validate_type_arguments` (main_checker.rs:181-202). Both substitute the type
+arguments for the type parameters in every bound and test the argument against the result. -/
+
+/-- types as far as bounds are concerned -/
+inductive BTy where
+  | var (n : Nat)            -- a type parameter
+  | con (c : Nat)            -- a class / interface / primitive
+  | app (f a : BTy)          -- type application (curried)
+  deriving DecidableEq, Repr
+
+def lookupT (n : Nat) : List (Nat × BTy) → Option BTy
+  | [] => none
+  | (k, t) :: rest => if k = n then some t else lookupT n rest
+
+/-- `subst_nominal_type`: unmapped parameters stay as they are -/
+def BTy.subst (σ : List (Nat × BTy)) : BTy → BTy
+  | .var n => (lookupT n σ).getD (.var n)
+  | .con c => .con c
+  | .app f a => .app (f.subst σ) (a.subst σ)
+
+def BTy.vars : BTy → List Nat
+  | .var n => [n]
+  | .con _ => []
+  | .app f a => f.vars ++ a.vars
+
+structure BParam where
+  name : Nat
+  bound : Option BTy
+  deriving Repr
+
+/-- which substitution the explicit validator applies to the bound of the i-th parameter
+(generated from the source) -/
+inductive BoundSubst where
+  | fullMap     -- all parameters ↦ their arguments, built before the loop
+  | prefixMap   -- only the parameters up to and including the i-th
+  deriving DecidableEq, Repr
+
+def check1 (sat : BTy → BTy → Bool) (σ : List (Nat × BTy)) (p : BParam) (t : BTy) (i : Nat) : List Nat :=
+  match p.bound with
+  | some b => if sat t (b.subst σ) then [] else [i]
+  | none => []
+
+/-- explicit validator, full map: indices of the parameters whose bound is violated -/
+def explicitFull (sat : BTy → BTy → Bool) (σ : List (Nat × BTy)) : List (BParam × BTy) → Nat → List Nat
+  | [], _ => []
+  | (p, t) :: rest, i => check1 sat σ p t i ++ explicitFull sat σ rest (i + 1)
+
+/-- explicit validator with the map grown inside the loop -/
+def explicitPrefix (sat : BTy → BTy → Bool) : List (Nat × BTy) → List (BParam × BTy) → Nat → List Nat
+  | _, [], _ => []
+  | σ, (p, t) :: rest, i =>
+    check1 sat (σ ++ [(p.name, t)]) p t i ++ explicitPrefix sat (σ ++ [(p.name, t)]) rest (i + 1)
+
+def mapOf (pairs : List (BParam × BTy)) : List (Nat × BTy) := pairs.map fun e => (e.1.name, e.2)
+
+def explicitViolations (mode : BoundSubst) (sat : BTy → BTy → Bool) (pairs : List (BParam × BTy)) : List Nat :=
+  match mode with
+  | .fullMap => explicitFull sat (mapOf pairs) pairs 0
+  | .prefixMap => explicitPrefix sat [] pairs 0
+
+/-- `validate_type_arguments`: the inferred substitution is looked up by name -/
+def inferredViolations (sat : BTy → BTy → Bool) (σ : List (Nat × BTy)) : List BParam → Nat → List Nat
+  | [], _ => []
+  | p :: rest, i =>
+    (match lookupT p.name σ with
+     | some t => check1 sat σ p t i
+     | none => []) ++ inferredViolations sat σ rest (i + 1)
+
 /-! ## the rewrite "make an inferred lambda-parameter type explicit" -/
 
 def annotateAt : Nat → List Bool → List Bool
